@@ -20,6 +20,7 @@ type c01opt struct {
 	timerBranch bool
 	tiers       string
 	subjects    []string
+	quiet       bool // nothing in the scenario terminates the subject: it must stay alive
 }
 
 func c01Scenario(name string, o c01opt, build func(w *World)) {
@@ -32,6 +33,11 @@ func c01Scenario(name string, o c01opt, build func(w *World)) {
 				build(w)
 				w.Check = func() {
 					for _, s := range o.subjects {
+						if o.quiet {
+							if r := w.recs[s]; len(r.term) > 0 || !w.alive(s) {
+								w.ex.Fail("spurious-termination", "%s terminated (%v) although nothing in this scenario kills it or makes it fail; log=%v", s, r.term, r.log)
+							}
+						}
 						w.serialOracle(s)
 						w.Out("%s=%s", s, strings.Join(w.recs[s].log, ","))
 					}
@@ -44,12 +50,18 @@ var errE = errors.New("E")
 
 func init() {
 	pb := c01opt{qb: 2, tb: 3, preempt: true}
-	c01Scenario("send-send", pb, func(w *World) {
+	pq := c01opt{qb: 2, tb: 3, preempt: true, quiet: true}
+	c01Scenario("send-send", pq, func(w *World) {
 		pid := w.spawnProbe("R", probeCfg{}, gen.ProcessOptions{})
 		w.ex.Thread("S1", func() { w.n.Send(pid, "a") })
 		w.ex.Thread("S2", func() { w.n.Send(pid, "b") })
 	})
-	c01Scenario("send-send-send", c01opt{qb: 1, tb: 2, preempt: true}, func(w *World) {
+	c01Scenario("send2-send2", pq, func(w *World) {
+		pid := w.spawnProbe("R", probeCfg{}, gen.ProcessOptions{})
+		w.ex.Thread("S1", func() { w.n.Send(pid, "a"); w.n.Send(pid, "c") })
+		w.ex.Thread("S2", func() { w.n.Send(pid, "b"); w.n.Send(pid, "d") })
+	})
+	c01Scenario("send-send-send", c01opt{qb: 2, tb: 3, preempt: true, quiet: true}, func(w *World) {
 		pid := w.spawnProbe("R", probeCfg{}, gen.ProcessOptions{})
 		w.ex.Thread("S1", func() { w.n.Send(pid, "a") })
 		w.ex.Thread("S2", func() { w.n.Send(pid, "b") })
